@@ -392,6 +392,16 @@ pub mod stdspec {
     pub fn fmt_prefix(p: &'static str, s: &String) -> (r: String)
         ensures r@ == p@ + s@,
     { unimplemented!() }
+//# section: stdspec-arc-count
+    // TRUSTED (on demand): Arc::strong_count / weak_count return SOME count (at least one strong reference exists while `a` is
+    // borrowed); nothing else is known about it - how many clones are alive is caller history, so code whose result depends on
+    // the count cannot be shown to have the wrapped value's verdict.
+    pub assume_specification<T: ?Sized, A: core::alloc::Allocator> [std::sync::Arc::<T, A>::strong_count] (a: &std::sync::Arc<T, A>) -> (n: usize)
+        ensures n >= 1;
+    pub assume_specification<T: ?Sized, A: core::alloc::Allocator> [std::sync::Arc::<T, A>::weak_count] (a: &std::sync::Arc<T, A>) -> (n: usize);
+//# section: stdspec-string-build
+    // TRUSTED (on demand): String::with_capacity yields an empty String and touches no sink (push_str / push are specified by vstd).
+    pub assume_specification [String::with_capacity] (n: usize) -> (r: String) ensures r@ == Seq::<char>::empty();
 //# section: stdspec-drop
     pub assume_specification<T> [core::mem::drop::<T>] (x: T);
 //# section: stdspec-end
